@@ -99,8 +99,9 @@ def work_kind(spec, rec, kind):
                        for n in sympy.preorder_traversal(e)):
                     rec.add("source_form_double_reciprocal_skipped")
                     continue
-                # likewise unevaluated arithmetic between literals (x / 1, (-1) * (-1), 2 * 3) - nobody writes it in a law
-                if any((isinstance(n, sympy.Pow) and n.base == 1) or (isinstance(n, (sympy.Mul, sympy.Add)) and sum(1 for a in n.args if a.is_number) >= 2) or
+                # likewise unevaluated arithmetic between literals (x / 1, (-1) * (-1), 2 * 3, (-1)**(-2)) - nobody writes it in a law
+                if any((isinstance(n, sympy.Pow) and (n.base == 1 or (n.base.is_number and n.base.is_negative and n.exp.is_number))) or
+                       (isinstance(n, (sympy.Mul, sympy.Add)) and sum(1 for a in n.args if a.is_number) >= 2) or
                        (isinstance(n, sympy.Mul) and any(isinstance(a, sympy.Pow) and a.exp.is_number and a.exp.is_negative and a.base in n.args for a in n.args))
                        for n in sympy.preorder_traversal(e)):
                     rec.add("source_form_literal_arithmetic_skipped")
